@@ -137,6 +137,24 @@ def shared_function_programs():
     return out
 
 
+def cross_graph_cases():
+    """Two GRAPHS sharing one cache and one function object: (alt program, tag)."""
+    out = []
+    # the same two-output function exposed under permuted output names
+    a = IR.func("A", ["x"], ["p", "q"], cache=True, fid="shared_h", tname="H", olabels=["r1", "r2"])
+    b = IR.func("A", ["x"], ["q", "p"], cache=True, fid="shared_h", tname="H", olabels=["r1", "r2"])
+    out.append((IR.prog("top", [a]), IR.prog("top", [b]), [["x", "in.x"]], "shared-func/permuted-outputs"))
+    # the same routing function in two if/else gates with exchanged targets
+    def gate(t, f):
+        return IR.ifelse("G", ["x"], t, f, [[t]], cache=True, fid="shared_dec", tname="DEC", pure=True)
+    g1 = gate("A", "B")
+    g2 = gate("B", "A")
+    g2["script"] = [["B"]]           # the function returns the same boolean: True selects the gate's OWN when_true
+    na, nb = IR.func("A", ["x"], ["a"]), IR.func("B", ["x"], ["b"])
+    out.append((IR.prog("top", [g1, na, nb]), IR.prog("top", [g2, na, nb]), [["x", "in.x"]], "shared-func/gate-swapped-targets"))
+    return out
+
+
 def engine_programs(rng, n):
     out = []
     tries = 0
@@ -166,13 +184,19 @@ def engine_programs(rng, n):
 
 
 def real_seq(job, backend):
-    """Run the job's sequence on the real runners sharing `backend`.  One graph object, fresh call log per run."""
-    rt = build.Runtime(job["prog"])
+    """Run the job's sequence on the real runners sharing `backend`.  One graph object per program (the
+    alternative program `alt` shares the Runtime, hence function objects), fresh call log per run."""
+    both = IR.prog("both", [])
+    both["nodes"] = list(job["prog"]["nodes"]) + [n for n in job["alt"]["nodes"] if n["name"] not in {m["name"] for m in job["prog"]["nodes"]}]
+    rt = build.Runtime(both)
     with warnings.catch_warnings():
         warnings.simplefilter("ignore")
-        g = build.build_graph(rt, job["prog"])
+        g1 = build.build_graph(rt, job["prog"])
+        g2 = build.build_graph(rt, job["alt"]) if job["alt"]["nodes"] else None
     outs = []
-    for mode in job["seq"]:
+    for entry in job["seq"]:
+        mode = entry.split("@")[0]
+        g = g2 if entry.endswith("@2") else g1
         rt.reset()
         kw = dict(error_handling="continue", max_iterations=job["prog"]["max_iter"], on_internal_override="ignore")
         with warnings.catch_warnings():
@@ -203,6 +227,14 @@ def fn_counts(calls, prog):
 def run_engine(ctx, thorough, rng):
     cases = shared_function_programs() + engine_programs(rng, 260 if thorough else 70)
     jobs = []
+    for prog, alt, prov, tag in cross_graph_cases():
+        for seq in (["sync", "sync@2"], ["async@2", "sync"], ["sync", "async@2", "sync"]):
+            j = gen.job(len(jobs) + 1, prog, prov)
+            j["alt"] = alt
+            j["seq"] = seq
+            j["cap"] = 0
+            j["_tag"] = tag
+            jobs.append(j)
     for prog, prov, tag in cases:
         for cap in ((0, 1, 2, 3) if thorough else (0, rng.choice([1, 2]))):
             j = gen.job(len(jobs) + 1, prog, prov)
@@ -222,7 +254,7 @@ def run_engine(ctx, thorough, rng):
                 backends.append(("disk", DiskCache(os.path.join(tmp, f"d{j['id']}"))))
             # real uncached reference
             un = copy.deepcopy(jc)
-            for _, nd in IR.all_nodes(un["prog"]):
+            for _, nd in list(IR.all_nodes(un["prog"])) + list(IR.all_nodes(un["alt"])):
                 nd["cache"] = False
             ref = real_seq(un, None)
             ctx.distinct(IR.struct_hash([jc["prog"], jc["provided"], jc["seq"], jc["cap"]]))
